@@ -436,6 +436,12 @@ fn run_sub(prop: &Property, sub: &SubCheck, params: &Arc<Params>, cases_override
                     for wt in &watches {
                         let s = wt.start_ms.load(Ordering::Relaxed);
                         if s != 0 && now > s && now - s > hang_limit_ms {
+                            // a stall of the whole process (a paused or snapshotted sandbox) makes every running case look
+                            // old: give the case ten more seconds of real progress before calling it a hang
+                            std::thread::sleep(std::time::Duration::from_secs(10));
+                            if wt.start_ms.load(Ordering::Relaxed) != s {
+                                continue;
+                            }
                             let words = wt.words.lock().map(|g| g.clone()).unwrap_or_default();
                             let path = format!("{}/replays/{pid}-{sname}-hang.json", out_dir());
                             let _ = std::fs::create_dir_all(format!("{}/replays", out_dir()));
